@@ -70,7 +70,7 @@ def run(ctx):
     core = ctx.core
     S.TEMPLATES = None
     # look through helpers extracted from the arms (free functions of blots-core called by path)
-    S.INLINE = lambda d: core.hir.get(d) if (d or "").startswith("blots_core::") and core.hir.get(d, {}).get("kind") == "Fn" else None
+    S.INLINE = S.default_inline(core)
     ctx.not_decided += ["the numerical laws themselves (rounding, permutation invariance up to rounding, monotonicity of percentile): runtime quantities", "that f64::min/max/sum behave as documented (std)"]
     f = core.hir_fn(BCALL)
     m = H.matches_on(f["body"], "functions::BuiltInFunction")[0]
